@@ -5,7 +5,7 @@ Line protocol for C14 (see harness/c14/main.go):
 
   run [asfound] pe <0|1> sh <0|1> cfg (default | custom <nP> p… <nS> s… <nSP> sp…) key <key>
       init <c> <s> <p> ops <n> <op>… [nodes <n> <0|1>…] sch <m> <entry>…
-  values  `-` (absent) | s<n> | i<n> | L | L<a>,<b>,…
+  values  `-` (absent) | s<n> | i<n> | L | L<a>,<b>,… | J | J<a>,<b>,…  (J: the list as a JSON string)
   ops     get | ex | set:<val>:<ttl> | del | getl | app:<n> | rem:<n> | incr | exp:<ttl>
           also setnx:<val>:<ttl> | hset:<val> | hget | hdel   (hash methods: the case key is <key>:<field>)
   entry   <tid> | <tid>!c | <tid>!s | <tid>!p      (fault on the cache / shared / persistent tier)
@@ -29,6 +29,9 @@ def parseVal (s : String) : Option (Option Val) :=
     | 'L' :: r =>
       if r.isEmpty then some (some (.list []))
       else ((splitOnChar (String.ofList r) ',').mapM String.toNat?).map (fun xs => some (.list xs))
+    | 'J' :: r =>
+      if r.isEmpty then some (some (.jl []))
+      else ((splitOnChar (String.ofList r) ',').mapM String.toNat?).map (fun xs => some (.jl xs))
     | _ => none
 
 def parseVal1 (s : String) : Option Val := (parseVal s).bind id
@@ -39,6 +42,7 @@ def valStr : Val → String
   | .str n => s!"s{n}"
   | .int n => s!"i{n}"
   | .list xs => "L" ++ natsStr xs
+  | .jl xs => "J" ++ natsStr xs
 
 def ovalStr : Option Val → String
   | none => "-"
